@@ -44,6 +44,14 @@ except Exception as ex:
 shutil.rmtree(d, ignore_errors=True)
 print(json.dumps(out))
 '''
+REPLAY_LEAK = REPLAY.replace('"violates": accepted, "accepted": accepted, "required": "rejected (value used twice)"', '"violates": accepted, "accepted": accepted, "required": "rejected (qubit leaked after a borrowing call)"').replace("from guppylang.std.option import Option, some", "from guppylang.std.option import Option, some\nfrom guppylang.std.quantum import qubit, h")
+PROG_LEAK_AFTER_BORROW = '''
+from guppylang.std.quantum import qubit, h
+@guppy.comptime
+def main() -> None:
+    q = qubit()
+    h(q)
+'''
 PROG_REUSE = '''
 @guppy.declare
 def consume(x: Option[array[int, 2]] @owned) -> None: ...
@@ -114,6 +122,52 @@ def run(chk):
         return z3.And(cop, z3.BoolVal(first_ok and p.value == ("WIRE", "WIRE")))
     chk.prove_paths("GuppyObject._use_wire:first-use-ok/\\marks-used/\\deregisters;second-use-raises<=>not-copyable", paths, post_use,
                     func=f"{OBJ}:GuppyObject._use_wire", replay=lambda m: {"script": REPLAY, "input": {"program": PROG_REUSE}})
+
+    # ---- update_packed_value: a value handed back by a borrowing call is re-armed (REG preserved)
+    e.func_info(UNP, "update_packed_value")
+    for shape in ("object", "tuple2", "struct1"):
+        def t_upd(it, shape=shape):
+            state, ty, GO = setup(it)
+            OU = it.lookup_global(e.module(OBJ), "ObjectUse")
+            upv = it.lookup_global(e.module(UNP), "update_packed_value")
+            v = it.call(GO, [ty, "WIRE"], {})
+            if it.ctx.branch(used0):
+                it.call_method(v, "_use_wire", [None])      # lent to the call
+            outs = ["OUT0", "OUT1"]
+            builder = SObj(ClassVal("Builder", builtin=True), {})
+            e.ext_models["hugr.ops.UnpackTuple"] = lambda it2, a, k: "UnpackTuple"
+            builder.fields["add_op"] = Builtin("add_op", lambda op, *w: SObj(ClassVal("Node", builtin=True), {"outputs": Builtin("outputs", lambda: iter(outs))}))
+            if shape == "object":
+                new = it.call(GO, [ty, "WIRE2"], {})
+                packed, want_wire = v, "WIRE2"
+            elif shape == "tuple2":
+                TT = it.lookup_global(e.module("guppylang_internals.tys.ty"), "TupleType")
+                other = it.call(GO, [ty, "WIRE_B"], {})
+                tty = it.call(TT, [[ty, ty]], {})
+                new = it.call(GO, [tty, "WIRE_T"], {})
+                packed, want_wire = (v, other), "OUT0"
+            else:
+                GS = it.lookup_global(e.module(OBJ), "GuppyStructObject")
+                fld = SObj(ClassVal("StructField", builtin=True), {"name": "q", "ty": ty})
+                sty = SObj(ClassVal("StructTy", builtin=True), {"fields": [fld], "copyable": SBool(cop), "droppable": SBool(dro)})
+                new = it.call(GO, [sty, "WIRE_S"], {})
+                del outs[1:]
+                packed, want_wire = SObj(GS, {"_ty": sty, "_field_values": {"q": v}, "_frozen": False}), "OUT0"
+            r = it.call(upv, [packed, new, builder], {})
+            return r, v, new, state, want_wire
+        paths = e.explore(t_upd)
+
+        def post_upd(p):
+            if p.kind != "return":
+                return z3.BoolVal(False)
+            r, v, new, state, want_wire = p.value
+            reg = state.fields["unused_undroppable_objs"]
+            v_reg = any(x is v for x in reg.values())
+            new_reg = any(x is new for x in reg.values())
+            conc = r is True and v.fields["_wire"] == want_wire and v.fields["_used"] is None and new.fields["_used"] is not None and not new_reg
+            return z3.And(z3.BoolVal(conc), z3.BoolVal(v_reg) == z3.Not(dro))
+        chk.prove_paths(f"update_packed_value[{shape}]:handed-back-value-gets-the-new-wire/\\is-unused-again/\\registered-as-unused<=>not-droppable/\\the-carrier-is-consumed", paths, post_upd,
+                        func=f"{UNP}:update_packed_value", replay=lambda m: {"script": REPLAY_LEAK, "input": {"program": PROG_LEAK_AFTER_BORROW}})
 
     # ---- leak check at the end of trace_function + frozen flag for owned inputs (structural on the real AST)
     fm = e.module(FN)
@@ -190,5 +244,5 @@ def run(chk):
     chk.assumptions += ["the type's copyable/droppable flags are symbolic attributes (their computation is C14)",
                         "get_tracing_state / get_calling_frame / pathlib.Path are mocked",
                         "the 12 mutating methods of `list` are taken from the running CPython"]
-    chk.not_covered += ["GuppyDefinition / TracingDefMixin calls (trace_call) marking arguments used via _use_wire(called_func)", "update_packed_value re-arming of borrowed values"]
+    chk.not_covered += ["GuppyDefinition / TracingDefMixin calls (trace_call) marking arguments used via _use_wire(called_func)", "update_packed_value: list (array) case; carriers nested deeper than one level"]
     chk.use_engine(e)
